@@ -62,6 +62,12 @@ struct GatedSupplier {
     /// code_file → number of gates, drawn by the caller from the execution's tape
     gates: BTreeMap<String, u32>,
     calls: Arc<AtomicU64>,
+    /// full module key -> (calls, in flight now, max in flight)
+    per_key: Arc<std::sync::Mutex<BTreeMap<String, (u32, u32, u32)>>>,
+}
+
+fn full_key(m: &(dyn Module + Sync)) -> String {
+    format!("{}|{:?}|{:?}|{:?}", m.code_file(), m.code_identifier().map(|c| c.to_string()), m.debug_file().map(|d| d.to_string()), m.debug_identifier().map(|d| d.to_string()))
 }
 
 #[async_trait]
@@ -69,12 +75,21 @@ impl SymbolSupplier for GatedSupplier {
     async fn locate_symbols(&self, module: &(dyn Module + Sync)) -> Result<LocateSymbolsResult, SymbolError> {
         self.calls.fetch_add(1, Ordering::SeqCst);
         let cf = module.code_file().to_string();
+        let fk = full_key(module);
+        {
+            let mut pk = self.per_key.lock().unwrap();
+            let e = pk.entry(fk.clone()).or_insert((0, 0, 0));
+            e.0 += 1;
+            e.1 += 1;
+            e.2 = e.2.max(e.1);
+        }
         let n = self.gates.get(&cf).copied().unwrap_or(0);
         for _ in 0..n {
             let g = Gate::new();
             g.open_after("supplier.gate", crate::common::draw_delay_nz("e4.sup.delay"));
             g.wait().await;
         }
+        self.per_key.lock().unwrap().get_mut(&fk).unwrap().1 -= 1;
         // several modules may share a code_file leaf but never a full code_file + base; the
         // world keys symbols by full code_file and debug id
         let want_id = module.debug_identifier().map(|d| d.breakpad().to_string());
@@ -160,6 +175,9 @@ pub struct ExecOut {
     pub json_problem: Option<String>,
     pub supply_faults: u32,
     pub cancelled_companion: bool,
+    /// gated supplier only: full module key -> (calls, max in flight)
+    pub per_key: BTreeMap<String, (u32, u32)>,
+    pub pending: (u64, u64),
 }
 
 struct FailingWriter {
@@ -221,6 +239,7 @@ pub fn execute(shared: Shared, mode: ExecMode, stack_budget: u64, nthreads: u64)
         cfg.time_pass_never = &["net.deadline"];
     }
     let calls = Arc::new(AtomicU64::new(0));
+    let per_key: Arc<std::sync::Mutex<BTreeMap<String, (u32, u32, u32)>>> = Arc::new(std::sync::Mutex::new(BTreeMap::new()));
     let scratch = if shared.use_http { Some(Scratch::new("e4")) } else { None };
     let mut supply_faults = 0u32;
     let supplier: Box<dyn FnOnce() -> Symbolizer> = if shared.use_http {
@@ -331,6 +350,7 @@ pub fn execute(shared: Shared, mode: ExecMode, stack_budget: u64, nthreads: u64)
             modules: shared.modules.clone(),
             gates,
             calls: calls.clone(),
+            per_key: per_key.clone(),
         };
         Box::new(move || Symbolizer::new(sup))
     };
@@ -472,6 +492,11 @@ pub fn execute(shared: Shared, mode: ExecMode, stack_budget: u64, nthreads: u64)
         .collect();
     let p = problems.borrow().clone();
     let frames_v: Vec<usize> = frames.borrow().clone();
+    let per_key_v: BTreeMap<String, (u32, u32)> = per_key.lock().unwrap().iter().map(|(k, v)| (k.clone(), (v.0, v.2))).collect();
+    let pending_v = {
+        let p = provider.inner.pending_stats();
+        (p.symbols_requested, p.symbols_processed)
+    };
     ExecOut {
         outputs: outs,
         frames: frames_v,
@@ -490,6 +515,8 @@ pub fn execute(shared: Shared, mode: ExecMode, stack_budget: u64, nthreads: u64)
         json_problem: p.2,
         supply_faults,
         cancelled_companion: cancelled,
+        per_key: per_key_v,
+        pending: pending_v,
     }
 }
 
@@ -518,6 +545,7 @@ pub fn run_c13() -> Outcome {
         adversarial: chance("c13.adversarial", 1, 4),
         need_debug_ids: use_http,
         hostile_symbols: false,
+        all_archs: true,
     });
     let shared = Shared {
         dump: Arc::new(world.dump.clone()),
@@ -785,6 +813,7 @@ pub fn run_c03() -> Outcome {
         adversarial: true,
         need_debug_ids: use_http,
         hostile_symbols: true,
+        all_archs: true,
     });
     let mut faults: Vec<String> = Vec::new();
     let storage = if chance("c03.storage_fault", 1, 3) {
@@ -873,6 +902,19 @@ pub fn run_c03() -> Outcome {
         simkit::ensure!(out.peak_bytes <= mem_budget, "c03.memory_budget", "peak live heap exceeded 256 MiB + 4096 x input bytes per concurrent processing");
         Ok(())
     })();
+    if accepted {
+        probe(match world.arch {
+            dumpgen::Arch::X86 => "e4.arch.x86",
+            dumpgen::Arch::Amd64 => "e4.arch.amd64",
+            dumpgen::Arch::Arm => "e4.arch.arm",
+            dumpgen::Arch::Arm64 => "e4.arch.arm64",
+            dumpgen::Arch::Arm64Old => "e4.arch.arm64_old",
+            dumpgen::Arch::Mips => "e4.arch.mips",
+            dumpgen::Arch::Ppc => "e4.arch.ppc",
+            dumpgen::Arch::Ppc64 => "e4.arch.ppc64",
+            dumpgen::Arch::Sparc => "e4.arch.sparc",
+        });
+    }
     let fault_desc = format!("{:?}/{}", faults, supply_faults);
     let key = simkit::rng::mix(&[crate::common::fnv(&world.dump), crate::common::fnv(fault_desc.as_bytes()), rep.digest]);
     Outcome {
@@ -919,4 +961,51 @@ fn measure(bytes: &[u8], world: &World) -> (u64, u64, u64) {
         }
     }
     (total, n, max_region)
+}
+
+// ---------------------------------------------------------------------------------------------
+// C12, pipeline scenario: the lookups are issued by the real join_all of real stack walkers
+
+pub fn run_c12_pipeline() -> Outcome {
+    let world = dumpgen::gen_world(&WorldOpts {
+        max_threads: 8,
+        many_threads: true,
+        adversarial: false,
+        need_debug_ids: false,
+        hostile_symbols: false,
+        all_archs: false,
+    });
+    let shared = Shared {
+        dump: Arc::new(world.dump.clone()),
+        modules: Arc::new(world.modules.clone()),
+        options: ch("c12p.options", 3) as u8,
+        use_http: false,
+    };
+    let companions = ch("c12p.companions", 3);
+    let out = execute(shared, ExecMode { faults: false, companions }, world.total_stack_bytes, world.threads.len() as u64);
+    probe("e2.pipeline");
+    let info = json!({"scenario": "process_minidump (real join_all of real walkers) over the gated supplier", "world": world.describe, "companions": companions, "steps": out.steps, "supplier_calls": out.per_key.values().map(|v| v.0).sum::<u32>(), "distinct_modules_asked": out.per_key.len(), "pending": [out.pending.0, out.pending.1]});
+    let result = (|| -> simkit::Check {
+        simkit::ensure!(out.stop == "done", "c12.deadlock", "processing ended with {}: a lookup was lost or deadlocked", out.stop);
+        for (_k, (calls, max_inflight)) in &out.per_key {
+            simkit::ensure!(*max_inflight <= 1, "c12.supplier_concurrent", "two locate_symbols calls for the same module were in flight at once");
+            simkit::ensure!(*calls <= 1, "c12.supplier_asked_twice", "the supplier was asked more than once for the same module");
+        }
+        let n = out.per_key.len() as u64;
+        simkit::ensure!(
+            out.pending.0 == n && out.pending.1 == n,
+            "c12.pending_stats",
+            "pending counters do not end at requested = processed = number of distinct modules (requested-distinct = {}, processed-distinct = {})",
+            out.pending.0 as i64 - n as i64,
+            out.pending.1 as i64 - n as i64
+        );
+        Ok(())
+    })();
+    let digest = simkit::with_ctx(|c| c.digest);
+    Outcome {
+        result,
+        nontrivial: world.threads.len() >= 2 && out.per_key.len() >= 1 && (companions > 0 || world.threads.len() >= 2),
+        key: simkit::rng::mix(&[crate::common::fnv(&world.dump), digest]),
+        info,
+    }
 }
